@@ -74,9 +74,24 @@ class Gen:
         if r < 0.96: return "u1,t1,u1"
         return "t[0-3],t20"
 
+    def longline(self):
+        """a request line around CP_LINEMAX (131072): at or above it the daemon answers 203 and executes nothing"""
+        R = self.R
+        L = R.choice([131071, 131072, 131072, 131073, 133000])
+        k = R.random()
+        if k < 0.4: body = b"x" * L                                         # 201 below the limit, 203 from it on
+        elif k < 0.6: return b"  \t" + b"y" * L + b" \r\n"                   # the limit applies to the stripped text
+        else:
+            L = max(L, 131072)                                              # executable text only from the limit on (203 expected)
+            tail = R.choice([b"t15", b"t12", b"u3"])
+            k = (L - 3 - len(tail)) // 3
+            body = b"on" + b" " * (L - 2 - 3 * k - len(tail)) + b"t1," * k + tail     # cut one short, `t15` reads `t1`
+        return body + b"\n"
+
     def clientline(self):
         R = self.R
         r = R.random()
+        if r < self.p.get('longline', 0.0): return self.longline()
         if r < 0.62: return ("%s %s\n" % (R.choice(COMS), self.target())).encode()
         if r < 0.70: return b"telemetry\r\n"
         if r < 0.76: return b"exprange\n"
@@ -122,6 +137,9 @@ class Gen:
         except Exception:
             pass
         out += prompt()
+        if R.random() < self.p.get('flood', 0.0):
+            # more than the device buffer holds (64 KiB) before the text the script waits for: the oldest bytes are dropped
+            out = bytes(R.choice(b"#=.z") for _ in range(8)) * R.choice([4000, 8200, 9000]) + out
         k = R.random() / max(self.p['faults'], 1e-9)
         if k < 0.05: out = out[:R.randrange(len(out) + 1)]
         elif k < 0.05 + self.p['garbage']:
@@ -222,15 +240,16 @@ def simulate(seed, N, profile=None, conf='mixp', fixed_ops=None, world=None):
             now += R.choice([0, 1000, 1000, 50000, 400000, 1000000, 2500000, 6000000] if R.random() < P['calm'] else [0, 1000, 1000, 50000, 400000])
             for fd, c in live.items():
                 if R.random() < 0.25 and len(sendq[fd]) < 300: sendq[fd] += g.clientline()
+                if len(sendq[fd]) > 100000: stats['request lines of 128 KiB and more offered'] += 1
             acc = 0; r = R.random()
             if len(live) < P['maxclients'] and r < 0.15: acc = 1
             elif r < 0.16: acc = 2
-            parts = []
+            parts = []; dl_c = {}; dl_d = {}
             F = P['faults']
             for fd, c in live.items():
                 rev = 0; rk = 0; data = b""; cap = 1 << 20
                 if sendq[fd] and not c['quit'] and R.random() < 0.7:
-                    n = R.choice([len(sendq[fd]), len(sendq[fd]), R.randint(1, len(sendq[fd]))]); data = sendq[fd][:n]; sendq[fd] = sendq[fd][n:]; rev |= 1
+                    n = R.choice([len(sendq[fd]), len(sendq[fd]), R.randint(1, len(sendq[fd]))]); n = min(n, 4000); data = sendq[fd][:n]; sendq[fd] = sendq[fd][n:]; rev |= 1
                 if c['to'] and R.random() < 0.85:
                     rev |= 2; cap = R.choice([1 << 20, 1 << 20, 1 << 20, R.randint(1, 60), -2])
                 r = R.random() / max(F, 1e-9)
@@ -241,6 +260,8 @@ def simulate(seed, N, profile=None, conf='mixp', fixed_ops=None, world=None):
                 elif r < 0.03: rev |= 2; cap = -1
                 if c['quit']: rev &= ~1
                 if rev: parts.append("%d:%d:%d:%s:%d" % (fd, rev, rk, hx(data), cap))
+                if (rev & 1) and data: dl_c[fd] = data
+                elif data: sendq[fd] = data + sendq[fd]
             soe = 0
             for di in range(ND):
                 if dfd[di] >= 0:
@@ -254,7 +275,7 @@ def simulate(seed, N, profile=None, conf='mixp', fixed_ops=None, world=None):
                         else: rev = 2 if F < 1 else 0
                     elif conn[di] == 2:
                         if pending[di] and R.random() < 0.8:
-                            n = R.choice([len(pending[di]), len(pending[di]), R.randint(1, len(pending[di]))]); data = pending[di][:n]; pending[di] = pending[di][n:]; rev |= 1
+                            n = R.choice([len(pending[di]), len(pending[di]), R.randint(1, len(pending[di]))]); n = min(n, 4000); data = pending[di][:n]; pending[di] = pending[di][n:]; rev |= 1
                         if dto[di] and R.random() < 0.85:
                             rev |= 2
                             if R.random() < 0.15: cap = -2
@@ -265,6 +286,7 @@ def simulate(seed, N, profile=None, conf='mixp', fixed_ops=None, world=None):
                     else: rev = R.choice([0, 0, 0, 1, 2])
                     if (rev & 1) and rk == 0 and not data: rev &= ~1
                     if rev: parts.append("%d:%d:%d:%s:%d" % (dfd[di], rev, rk, hx(data), cap))
+                    if (rev & 1) and data: dl_d[dfd[di]] = (di, data)
             op = "P %d %d %d %d" % (now, acc, g.connans(), soe) + "".join(" " + x for x in parts)
         res = c_op(op)
         if ':-2' in op and fixed_ops is None:
@@ -288,6 +310,20 @@ def simulate(seed, N, profile=None, conf='mixp', fixed_ops=None, world=None):
             break
         newlive = {}
         wfd = {dfd[i]: i for i in range(ND) if dfd[i] >= 0}
+        if fixed_ops is None and it > 0:
+            # the daemon takes what its buffer has room for: the rest is still in the kernel's queue
+            took = {}
+            for l in obs:
+                if l.startswith("Y read "):
+                    t = l.split(); took[int(t[2])] = int(t[3])
+            for fd, data in dl_c.items():
+                n = took.get(fd)
+                if n is not None and 0 <= n < len(data): sendq[fd] = data[n:] + sendq[fd]; stats['client reads shorter than what was offered'] += 1
+                elif n is None: sendq[fd] = data + sendq[fd]
+            for fd, (di, data) in dl_d.items():
+                n = took.get(fd)
+                if n is not None and 0 <= n < len(data): pending[di] = data[n:] + pending[di]; stats['device reads shorter than what was offered'] += 1
+                elif n is None: pending[di] = data + pending[di]
         for l in obs:
             if l.startswith("C "):
                 t = l.split(); fd = int(t[2]); newlive[fd] = dict(id=int(t[1]), quit=t[3] == "1", pending=int(t[6]), to=t[8] != "-")
